@@ -83,7 +83,10 @@ func c05Undo(c *core.Ctx) {
 		prof = gen.Small
 	}
 	prof.RememberMode = 1
-	fs := genForestScenario(c.Rng, tag, cfgs, fGenOpts{Profile: prof, Rounds: 1 + c.Rng.Intn(3), Undo: true, ForceEmptyRootOverwrite: c.Index%2 == 0})
+	if c.Index%2 == 0 {
+		prof.RememberMode = 2 // everything remembered: the partial forest applies blocks without being re-shown the proofs
+	}
+	fs := genForestScenario(c.Rng, tag, cfgs, fGenOpts{Profile: prof, Rounds: 1 + c.Rng.Intn(3), Undo: true, PartialOps: c.Index%3 != 0, ForceEmptyRootOverwrite: c.Index%2 == 0})
 	fs.FromRootsAt = -1
 	// the end state of the scenario, on the model alone
 	m := &rm.Model{}
